@@ -502,6 +502,8 @@ class Executor:
       if c.result is not None and (not isinstance(res, VNone) or isinstance(c.result, KOpt)):
         res = coerce(self.world.materialize(self, res, c.result), c.result)
       ctx = self.ctx(result=res, mid=getattr(self, 'cm_mid', None))
+      if c.at_return:
+        c.at_return(self, ctx)      # ghost code: lemmas/hints (proved, then assumed)
       clauses = c.cm_exit if c.is_cm else c.ensures
       for cl in clauses:
         self.path.oblige(f'{q}/ensures/{cl.label}', cl.fn(ctx), cl.props)
@@ -1197,6 +1199,14 @@ class Executor:
         if isinstance(old, (VPy, VExc)):
           continue
         if isinstance(old, VNone):
+          # None before the loop, assigned inside it: an arbitrary value of the declared
+          # (optional) kind -- leaving it None would be unsound
+          lk = self.contract.local_kinds.get(name)
+          if lk is None:
+            self.oos(f'local `{name}` is None before the loop and assigned inside it: '
+                     'needs a declared kind (contract.local_kinds)')
+          fr.env[name] = self.assume_wf(working_copy(lk.fresh(
+              self.path.fresh_name(f'lp{n}_{name}'))))
           continue
         fr.env[name] = self.assume_wf(working_copy(kind_of(old).fresh(
             self.path.fresh_name(f'lp{n}_{name}'))))
